@@ -343,10 +343,6 @@ impl Compiler {
 
         self.push_span(node, ctx.ast);
 
-        if !self.frame_stack.is_empty() {
-            self.frame_mut().last_node_was_return = matches!(&node.node, Node::Return(_));
-        }
-
         let result = match &node.node {
             Node::Null => {
                 let result = self.assign_result_register(ctx)?;
@@ -711,7 +707,15 @@ impl Compiler {
         let block_result = self.compile_block(expressions, ctx.with_register(result_register))?;
 
         if let Some(block_register) = block_result.register {
-            if !self.frame().last_node_was_return {
+            // An additional return instruction is needed,
+            // unless the block's last expression is an explicit return,
+            // e.g. `f = |x| return x`
+            // This is a coarse check, e.g. we currently don't check if the last expression
+            // returns in all branches, but it'll do for now as an optimization for simple cases.
+            let last_expression_is_return = expressions
+                .last()
+                .is_some_and(|last| matches!(ctx.node(*last), Node::Return(_)));
+            if !last_expression_is_return {
                 if !is_generator {
                     self.compile_check_output_type(
                         block_register,
